@@ -302,7 +302,10 @@ def main() -> int:
                        ('monitor:limit_passed', 2), ('cov:leaky_victim_TIMEOUT', 1), ('monitor:helpers_seen', 2),
                        ('cov:leaky_sigterm_ignoring_helper_probe', 1),
                        ('cov:tap_no_result_line_but_bad_exit', 2), ('cov:death_by_signal_exitcode', 1),
-                       ('cov:death_by_signal_tap', 1), ('cov:interrupted_in_flight_test_not_plain_exit0', 1)):
+                       ('cov:death_by_signal_tap', 1), ('cov:interrupted_in_flight_test_not_plain_exit0', 1),
+                       ('cov:output_over_64KiB_without_newline_stdout', 1),
+                       ('cov:output_over_64KiB_without_newline_stderr', 1),
+                       ('cov:tap_description_with_hash_passing', 1), ('cov:tap_description_with_hash_failing', 1)):
         chk.require(m, minimum)
     chk.require('runs_conclusive', int(0.6 * cfg['projects'] * cfg['per_project']))
     if chk.tier == 'thorough':
